@@ -480,4 +480,28 @@ theorem const_x_sums {pts : List (ℚ × ℚ)} {c : ℚ} (h : ∀ p ∈ pts, p.1
   · unfold sXXX sN; rw [S_congr (g := fun _ => c * c * c) (fun p hp => by rw [h p hp]), S_const]
   · unfold sXXXX sN; rw [S_congr (g := fun _ => (c * c) * (c * c)) (fun p hp => by rw [h p hp]), S_const]
 
+/-- Abscissae taking at most two values `a`, `b`: every sum over the abscissae is `k g(a) + l g(b)`. -/
+theorem two_values_sums {pts : List (ℚ × ℚ)} {a b : ℚ} (h : ∀ p ∈ pts, p.1 = a ∨ p.1 = b) :
+    ∃ k l : ℚ, ∀ g : ℚ → ℚ, S pts (fun p => g p.1) = k * g a + l * g b := by
+  induction pts with
+  | nil => exact ⟨0, 0, fun g => by simp⟩
+  | cons p t ih =>
+    obtain ⟨k, l, hkl⟩ := ih (fun q hq => h q (List.mem_cons_of_mem _ hq))
+    rcases h p List.mem_cons_self with hp | hp
+    · exact ⟨k + 1, l, fun g => by rw [S_cons, hkl g, hp]; ring⟩
+    · exact ⟨k, l + 1, fun g => by rw [S_cons, hkl g, hp]; ring⟩
+
+/-- `Σ (λ f + μ g) h = λ Σ f h + μ Σ g h` -/
+theorem S_lin2 {ι : Type} (l : List ι) (f g h : ι → ℚ) (a b : ℚ) :
+    S l (fun i => (a * f i + b * g i) * h i) = a * S l (fun i => f i * h i) + b * S l (fun i => g i * h i) := by
+  induction l with
+  | nil => simp
+  | cons i t ih => simp only [S_cons]; linear_combination ih
+
+theorem take_zip' (xs ys : List ℚ) :
+    (xs.take (min xs.length ys.length)).zip (ys.take (min xs.length ys.length)) = xs.zip ys := by
+  unfold List.zip
+  rw [← List.take_zipWith, List.take_of_length_le]
+  simp
+
 end Pymeeus.Refine.CurveFitting
